@@ -316,3 +316,12 @@ META = dict(
          'numpy structured dtypes (layout contracts); numpy element access itself is trusted.',
     assumptions=[sym.A_REAL],
     explanation='')
+
+
+def bounded(tier, seed):
+    from rtc import camx
+    return camx.run_c13(tier, seed)
+
+
+def bounded_replay(p):
+    return False, p.get('what')
